@@ -33,19 +33,28 @@ type tracker struct {
 	keys              []*trackedKey
 	wrapKeys          bool
 	keyPanic          string // "CSRs" | "AddCertsToAgent"
+	panicVal          any    // what is panicked with (nil: a string)
 	cancelIn          string // "Authenticate" | "Generate": the request context ends while this method runs
 	cancel            func()
 }
 
+// pval is the value a scripted panic is raised with.
+func (t *tracker) pval(def string) any {
+	if t.panicVal != nil {
+		return t.panicVal
+	}
+	return def
+}
+
 func (t *tracker) Name() string {
 	if t.panicIn == "Name" {
-		panic("scripted panic in Name")
+		panic(t.pval("scripted panic in Name"))
 	}
 	return t.inner.Name()
 }
 func (t *tracker) Authenticate(p *csr.ReqParam) error {
 	if t.panicIn == "Authenticate" {
-		panic("scripted panic in Authenticate")
+		panic(t.pval("scripted panic in Authenticate"))
 	}
 	err := t.inner.Authenticate(p)
 	if t.cancelIn == "Authenticate" {
@@ -57,7 +66,7 @@ func (t *tracker) Authenticate(p *csr.ReqParam) error {
 func (t *tracker) Generate(p *csr.ReqParam) ([]csr.AgentKey, error) {
 	t.genStart = t.ag.NumRequests()
 	if t.panicIn == "Generate" {
-		panic("scripted panic in Generate")
+		panic(t.pval("scripted panic in Generate"))
 	}
 	if t.emptyGenerate {
 		if t.emptyNonNil {
@@ -89,13 +98,13 @@ type trackedKey struct {
 
 func (k *trackedKey) CSRs() []*proto.SSHCertificateSigningRequest {
 	if k.t.keyPanic == "CSRs" {
-		panic("scripted panic in CSRs")
+		panic(k.t.pval("scripted panic in CSRs"))
 	}
 	return k.inner.CSRs()
 }
 func (k *trackedKey) AddCertsToAgent(certs []ssh.PublicKey, comments []string) error {
 	if k.t.keyPanic == "AddCertsToAgent" {
-		panic("scripted panic in AddCertsToAgent")
+		panic(k.t.pval("scripted panic in AddCertsToAgent"))
 	}
 	k.certsIn = certs
 	k.delivErr = k.inner.AddCertsToAgent(certs, comments)
@@ -379,13 +388,24 @@ func main() {
 				})
 			}
 			// panics in handler / agent-key methods, empty and failing Generate
-			for _, m := range []string{"Name", "Authenticate", "Generate", "CSRs", "AddCertsToAgent", "empty-generate", "empty-generate-non-nil", "failing-generate"} {
+			var nilErr *gensign.Error
+			pvals := []struct {
+				name string
+				v    any
+			}{{"", nil}, {"-with-an-error-value", fmt.Errorf("an error value")}, {"-with-a-gensign-error", gensign.NewErrorWithMsg(gensign.HandlerAuthN, "x", "a typed error used as panic value")}, {"-with-a-nil-gensign-error", nilErr}}
+			for mi, m0 := range []string{"Name", "Authenticate", "Generate", "CSRs", "AddCertsToAgent", "Name", "Authenticate", "Generate", "CSRs", "AddCertsToAgent", "empty-generate", "empty-generate-non-nil", "failing-generate"} {
+				m := m0
 				c := r.Case("fault", idx)
 				idx++
 				if c == nil {
 					continue
 				}
-				rec := faultRec{Shape: sh, Fault: "panic-in-" + m, Stage: "panic", Frames: N, Signs: S}
+				// the first five panic with a string; the second five with another kind of value (which one rotates with the shape)
+				pv := pvals[0]
+				if mi >= 5 && mi < 10 {
+					pv = pvals[1+(mi+len(shapes)+sh.Keys+sh.CSRs+sh.NCerts)%3]
+				}
+				rec := faultRec{Shape: sh, Fault: "panic-in-" + m + pv.name, Stage: "panic", Frames: N, Signs: S}
 				switch m {
 				case "empty-generate", "empty-generate-non-nil":
 					rec.Fault, rec.Stage = m, "generation"
@@ -396,6 +416,7 @@ func main() {
 					rec.Fault, rec.Stage = m, "generation"
 				}
 				judge(r, c, e, sh, rec, func(ag *wire.Agent, tr *tracker, s *gsrig.Signer) {
+					tr.panicVal = pv.v
 					switch m {
 					case "Name", "Authenticate", "Generate":
 						tr.panicIn = m
